@@ -203,33 +203,40 @@ func (f *formatter) FormatSchema(schema *ast.Schema) {
 
 	f.FormatCommentGroup(schema.Comment)
 
+	// The schema definition can be left out only if loading the output infers the same root
+	// operation types from the default names: once one root has another name, or a type that
+	// is not a root carries a default root name, every root has to be spelled out.
+	roots := []struct {
+		op   string
+		name string
+		def  *ast.Definition
+	}{
+		{"query", "Query", schema.Query},
+		{"mutation", "Mutation", schema.Mutation},
+		{"subscription", "Subscription", schema.Subscription},
+	}
 	var inSchema bool
-	startSchema := func() {
-		if !inSchema {
+	for _, root := range roots {
+		if root.def != nil && root.def.Name != root.name || root.def == nil && schema.Types[root.name] != nil {
 			inSchema = true
-
-			f.WriteWord("schema")
-
-			f.FormatDirectiveList(schema.SchemaDirectives)
-
-			f.WriteString("{").WriteNewline()
-			f.IncrementIndent()
 		}
 	}
-	if schema.Query != nil && schema.Query.Name != "Query" {
-		startSchema()
-		f.WriteWord("query").NoPadding().WriteString(":").NeedPadding()
-		f.WriteWord(schema.Query.Name).WriteNewline()
+	if inSchema && schema.Query == nil && schema.Mutation == nil && schema.Subscription == nil {
+		inSchema = false
 	}
-	if schema.Mutation != nil && schema.Mutation.Name != "Mutation" {
-		startSchema()
-		f.WriteWord("mutation").NoPadding().WriteString(":").NeedPadding()
-		f.WriteWord(schema.Mutation.Name).WriteNewline()
-	}
-	if schema.Subscription != nil && schema.Subscription.Name != "Subscription" {
-		startSchema()
-		f.WriteWord("subscription").NoPadding().WriteString(":").NeedPadding()
-		f.WriteWord(schema.Subscription.Name).WriteNewline()
+	if inSchema {
+		f.WriteWord("schema")
+
+		f.FormatDirectiveList(schema.SchemaDirectives)
+
+		f.WriteString("{").WriteNewline()
+		f.IncrementIndent()
+		for _, root := range roots {
+			if root.def != nil {
+				f.WriteWord(root.op).NoPadding().WriteString(":").NeedPadding()
+				f.WriteWord(root.def.Name).WriteNewline()
+			}
+		}
 	}
 	if inSchema {
 		f.DecrementIndent()
